@@ -13,6 +13,9 @@ import (
 // nextUpdate, thisUpdate) is shifted by the same amount so that durations are
 // kept. offMin != 0 encodes the same instant in a +hhmm zone. nil when the
 // parser does not accept the result.
+// GenTimeForm as offMin selects the GeneralizedTime "Z" encoding of the date.
+const GenTimeForm = 99999
+
 func redate(o *mon.Obj, target time.Time, offMin int) *mon.Obj {
 	return redateX(o, target, offMin, false)
 }
@@ -33,7 +36,11 @@ func redateX(o *mon.Obj, target time.Time, offMin int, keep bool) *mon.Obj {
 		if keep {
 			na = o.Cert.NotAfter
 		}
-		dc.SetValidity(der.TimeOffset(target, offMin), der.Time(na))
+		nbNode := der.TimeOffset(target, offMin)
+		if offMin == GenTimeForm {
+			nbNode = der.GenTime(target) // GeneralizedTime even where DER prescribes UTCTime: parsers often accept it
+		}
+		dc.SetValidity(nbNode, der.Time(na))
 		n, _ := mon.ParseObj(o.Kind, o.Name, dc.Encode())
 		return n
 	case corpus.CRL:
@@ -42,7 +49,11 @@ func redateX(o *mon.Obj, target time.Time, offMin int, keep bool) *mon.Obj {
 			return nil
 		}
 		delta := target.Sub(o.CRL.ThisUpdate)
-		dr.SetThisUpdate(der.TimeOffset(target, offMin))
+		tuNode := der.TimeOffset(target, offMin)
+		if offMin == GenTimeForm {
+			tuNode = der.GenTime(target)
+		}
+		dr.SetThisUpdate(tuNode)
 		if !keep && dr.NextUpdate() != nil && !o.CRL.NextUpdate.IsZero() {
 			nu := o.CRL.NextUpdate.Add(delta)
 			if nu.Year() <= 9999 && nu.Year() >= 0 {
@@ -57,7 +68,7 @@ func redateX(o *mon.Obj, target time.Time, offMin int, keep bool) *mon.Obj {
 			return nil
 		}
 		var nu *der.Node
-		if offMin == 0 {
+		if offMin == 0 || offMin == GenTimeForm {
 			nu = der.GenTime(target)
 		} else {
 			nu = der.GenTimeOffset(target, offMin)
